@@ -334,7 +334,12 @@ Error CodeHolder::attach(BaseEmitter* emitter) noexcept {
   }
 
   // Reserve the space now as we cannot fail after `on_attach()` succeeded.
-  ASMJIT_PROPAGATE(emitter->on_attach(*this));
+  Error err = emitter->on_attach(*this);
+  if (ASMJIT_UNLIKELY(err != Error::kOk)) {
+    // The emitter must not stay half-attached, otherwise the next attach() would be a no-op returning success.
+    emitter->_code = nullptr;
+    return err;
+  }
 
   // Make sure CodeHolder <-> BaseEmitter are connected.
   ASMJIT_ASSERT(emitter->_code == this);
